@@ -25,6 +25,38 @@ CLAIMED = {
              "and required on every MSS 0->1 step.",
         tech="CBMC bounded model checking, symbolic error code / register values, one step from arbitrary coherent state",
         ref="3 C12"),
+    "C03": dict(
+        text="For each concrete pattern (every pattern shipped in /repo tests and examples, harvested at run time, plus a generated "
+             "family with every optional/numeric placement) the real matchCommand runs on a SYMBOLIC header (all strings up to the "
+             "bound over the pattern's letters in both cases, a foreign letter, digits, _ : ? *) in both calling modes, against a "
+             "reference matcher that works on a keyword table (dynamic programme over keyword x mnemonic) - acceptance must agree "
+             "and numeric suffixes must come back in keyword order with the default for omitted/skipped keywords.",
+        tech="CBMC bounded model checking of real utils.c matcher vs keyword-table reference matcher, symbolic header per concrete pattern",
+        ref="3 C03"),
+    "C13": dict(
+        text="Every recogniser of lexer.c is run on every byte string up to the bound (all 256 byte values, every start offset, "
+             "arbitrary garbage in the token out-parameter, logical end of input = end of the object) and must agree exactly - return "
+             "value, type, extent, cursor - with an index-based reference recogniser written from IEEE 488.2 section 7; "
+             "scpiParser_parseProgramData and scpiParser_detectProgramMessageUnit are checked the same way against the reference "
+             "data-item and unit grammar (well-formedness iff header [blanks data{,data}] terminator|end, extents, parameter count, termination).",
+        tech="CBMC bounded model checking of real lexer.c/parser.c recognisers against reference recognisers over all bounded inputs",
+        ref="3 C13"),
+    "C15": dict(
+        text="Each buffer-filling API gets a caller buffer of SYMBOLIC length 0..24/40 whose end is the end of the underlying object, "
+             "so CBMC's bounds checks are the canary for every byte behind it; NUL-termination and returned length are asserted. "
+             "Values, unit names, special names and quoted texts are symbolic; libc snprintf is a contract model printing table text; "
+             "the built-in formatter is checked with its digit generator replaced by an arbitrary-digits stub.",
+        tech="CBMC bounded model checking with exact-size symbolic-length caller buffers (bounds checks as canaries)",
+        ref="3 C15"),
+    "C20": dict(
+        text="Refinement step on the circular string heap (static-heap build): from EVERY heap state satisfying the representation "
+             "invariant (0..3 live non-empty strings at any rotation incl. wrapped, free bytes zero, exact count, cursor behind the "
+             "newest) each real operation - strndup with symbolic text/limit, release of the oldest, release of the newest with "
+             "rollback - must keep every surviving string readable intact through get_parts, store the new text exactly or refuse it, "
+             "keep the free-byte count exact, re-establish the invariant (cursor 0 when empty) and never touch a byte outside the "
+             "exact-size heap object.",
+        tech="CBMC bounded model checking, one refinement step from an arbitrary valid heap state, heap sizes 2..12",
+        ref="3 C20"),
     "C10": dict(
         text="Refinement-step bounded model checking: from EVERY representation state of a queue of capacity 1..4 (any fill level, read index, codes, each live slot with or without its own heap text, stale pointers in dead slots) each real operation (push with symbolic code/text/explicit length and a possible strndup failure, pop, clear, count, SYST:ERR?) must produce exactly the abstract FIFO result - same codes, the very same text pointers, -350 replacing the newest on overflow - and re-establish the representation invariant; ownership is decided by CBMC memory-leak, double-free and deallocated-dereference checks on the real free() calls. Histories of any length follow by induction; SCPI_Init is the base case.",
         tech="CBMC bounded model checking, one refinement step from an arbitrary representation state, memory-leak/double-free checks, allocation-fault injection",
